@@ -292,10 +292,19 @@ def run(ctx):
     viol = []
 
     # ---------------- stage A
-    nA = 60 if thorough else 14
+    nA = 60 if thorough else 20
     scripts = [gen_log_case(rng, big=thorough and i % 7 == 0) for i in range(nA)]
     # fixed first cases: empty blackbox, one entry, exactly wrapping
     scripts[0] = (["open 1024", "dump", "emit", "print 0"], [])
+    # ... a small blackbox with a few entries, and one that has wrapped: the bases of the stage-B mutations
+    for slot, (size, n) in ((1, (1024, 4)), (2, (4000, 70))):
+        ops, recs = ["open %d" % size], []
+        for k in range(n):
+            fn = b"fn%c" % (65 + k % 26)
+            s_ = bytes(rng.choice(b"abcdefghijklmnopqrstuvwxyz ") for _ in range(rng.choice([3, 30, 120])))
+            ops.append("log %d %s %d %d %d %d %s" % (k % 9, B.hx(fn), 100 + k, k, k % 4 if k % 4 != 2 else 0, k - 5, B.hx(s_)))
+            recs.append((k % 9, fn, 100 + k, k))
+        scripts[slot] = (ops + ["dump", "emit", "print 0"], recs)
     texts = [("prios\n" if i == 0 else "") + "\n".join(ops) + "\n" for i, (ops, _) in enumerate(scripts)]
     implA = C.run_cases(exe, texts, env=B.ENV, timeout=900)
     for l in implA[0][0]:
@@ -356,7 +365,7 @@ def run(ctx):
                                       "crash": crash and crash[1][-1500:]}))
         else:
             res.traces_validated += 1
-        if frle and printed >= 1 and len(bases) < (6 if thorough else 2) and len(B.unrle(frle)) <= 9000:
+        if frle and printed >= 1 and len(bases) < (6 if thorough else 3) and len(B.unrle(frle)) <= 9000 and ci >= 1:
             bases.append(B.unrle(frle))
 
     # ---------------- stage B
